@@ -1,0 +1,1 @@
+//! Verification hooks for the pure gossipsub component checks (only with `--cfg libp2p_verif`).
